@@ -9,6 +9,8 @@ PLAN = {
     ],
     "C02": [
         dict(test="TestC02", quick=(25000, 8), thorough=(600000, 8), timeout_thorough=7200),
+        # sequences of proofs on ONE validator instance, with the consumer's receive buffer reused (state must not leak between calls)
+        dict(test="TestC02Seq", quick=(8000, 4), thorough=(200000, 8)),
         dict(test="FuzzC02", kind="fuzz", fuzztime=240),
     ],
     "C03": [dict(test="TestC03", quick=(2500, 16), thorough=(40000, 16), timeout_thorough=7200)],
@@ -31,7 +33,10 @@ PLAN = {
         # at emission, every correct peer is cloned by replay and judged at once (the variant the property's quantifier names for the thorough tier)
         dict(test="TestC11Clone", quick=(100, 8), thorough=(4000, 16), timeout_thorough=7200),
     ],
-    "C10": [dict(test="TestC10", quick=(2500, 16), thorough=(40000, 16), timeout_thorough=7200)],
+    "C10": [
+        dict(test="TestC10", quick=(2500, 16), thorough=(40000, 16), timeout_thorough=7200),
+        dict(test="TestC10N", quick=(5000, 6), thorough=(120000, 8), timeout_thorough=7200),
+    ],
     "C12": [
         dict(test="TestC12N", quick=(4000, 8), thorough=(150000, 8), timeout_thorough=7200),
         dict(test="TestC12R", quick=(100, 8), thorough=(1500, 8), race=True, timeout=1500, timeout_thorough=7200),
@@ -82,6 +87,8 @@ PLAN = {
         dict(test="TestC06Exhaustive", kind="plain", quick=(0, 1), thorough=(0, 1)),
         dict(test="TestC06Random", quick=(15000, 4), thorough=(300000, 8)),
         dict(test="TestC06Boundary", quick=(15000, 4), thorough=(300000, 8)),
+        # one committee slice object refreshed in place between calls (nothing remembered between calls may change a result)
+        dict(test="TestC06Stateful", quick=(10000, 2), thorough=(300000, 4)),
         # the thresholds as the protocol logic applies them (prepared / committed / elected on a real node), both directions
         dict(test="TestC06InUse", quick=(5000, 6), thorough=(150000, 8)),
     ],
